@@ -407,5 +407,24 @@ void use_concurrency()
     TripWireTrigger t3(std::move(t2));
     t1 = std::move(t3);
     (void)make_triplines(2);
+    // every public operation is also CALLED (lvalue and rvalue arguments), so that an operation that becomes a member
+    // template is still instantiated and analysed
+    gmlc::concurrency::DelayedObjects<CX> dobj;
+    const std::string key("k");
+    CX val{};
+    (void)dobj.getFuture(1);
+    (void)dobj.getFuture(key);
+    dobj.setDelayedValue(1, val);
+    dobj.setDelayedValue(1, CX{});
+    dobj.setDelayedValue(key, val);
+    dobj.setDelayedValue(key, CX{});
+    (void)dobj.isRecognized(1);
+    (void)dobj.isRecognized(key);
+    (void)dobj.isCompleted(1);
+    (void)dobj.isCompleted(key);
+    dobj.finishedWithValue(1);
+    dobj.finishedWithValue(key);
+    dobj.fulfillAllPromises(val);
+    dobj.fulfillAllPromises(CX{});
 }
 }  // namespace vdrv
